@@ -841,7 +841,18 @@ func (c *Ctx) ruleRemainingLength(rr *RuleRep) {
 	}
 	cases := 0
 	seenLens := map[int]bool{}
+	if why, isLoop := c.remainingLengthLoopForm(f); isLoop {
+		if why == "" {
+			rr.OK("remainingLength/loop", f.Pos(), "loop form: while n > 0x7F emit byte(n)|0x80 and shift n right by 7, then emit byte(n); n <= 268435455 guarded by a panic — 7 bits per byte, least significant group first, continuation bit on all but the last byte, minimal length")
+		} else {
+			rr.Bad("remainingLength/loop", f.Pos(), "the remaining-length encoder is a loop that is not the MQTT variable-length scheme: %s", why)
+		}
+		seenLens[1], seenLens[2], seenLens[3], seenLens[4] = true, true, true, true
+	}
 	for _, ret := range returnsOf(f) {
+		if seenLens[1] && seenLens[4] && cases == 0 {
+			break // judged as a loop above
+		}
 		sl, ok := ret.Results[0].(*ssa.Slice)
 		if !ok {
 			rr.Undecided("remainingLength/return", ret.Pos(), "result is not a byte literal (loop formulation is not supported)")
@@ -1026,6 +1037,13 @@ func (c *Ctx) ruleRemainingLength(rr *RuleRep) {
 						stride7 = true
 					}
 				}
+				// shift computed as 7*i with a counter i stepping by 1
+				if b.Op == token.MUL && k == 7 {
+					stride7 = true
+				}
+			}
+			if k, ok := constInt(b.X); ok && b.Op == token.MUL && k == 7 {
+				stride7 = true
 			}
 		})
 		if has7F && has80 && stride7 {
@@ -1192,7 +1210,22 @@ func (c *Ctx) ruleInboundFields(rr *RuleRep) {
 			usCall = in.(*ssa.Call)
 		}
 	})
-	if usCall == nil || usCall.Call.Args[0] != ssa.Value(contents) {
+	// the decoder's operand is the body itself, or the body from offset 0 (a read cursor that has not moved yet)
+	fromStart := func(v ssa.Value) bool {
+		if v == ssa.Value(contents) {
+			return true
+		}
+		sl, ok := v.(*ssa.Slice)
+		if !ok || sl.X != ssa.Value(contents) || sl.High != nil {
+			return false
+		}
+		if sl.Low == nil {
+			return true
+		}
+		alts := altSums(sl.Low, 0)
+		return len(alts) == 1 && len(alts[0]) == 0
+	}
+	if usCall == nil || !fromStart(usCall.Call.Args[0]) {
 		rr.Bad("pktPublish.Parse/topic", p.Pos(), "the topic is not decoded as the first length-prefixed field of the packet body")
 		return
 	}
@@ -1208,33 +1241,45 @@ func (c *Ctx) ruleInboundFields(rr *RuleRep) {
 			}
 		}
 		if _, isP := isFieldAddr(st.Addr, "Message", "Payload"); isP {
-			// contents[n+nID:] with n = unpackString result 0, nID = phi(0, unpackUint16 result 0)
-			if sl, ok := st.Val.(*ssa.Slice); ok && sl.X == ssa.Value(contents) && sl.High == nil {
-				if add, ok := sl.Low.(*ssa.BinOp); ok && add.Op == token.ADD {
-					isN := func(v ssa.Value) bool {
-						ex, ok := v.(*ssa.Extract)
-						return ok && ex.Tuple == ssa.Value(usCall) && ex.Index == 0
+			// contents[off:] where off is, depending on the path, n or n + nID (n = bytes consumed by unpackString,
+			// nID = bytes consumed by unpackUint16): any way of adding these up is accepted (sum, phi, running cursor)
+			if sl, ok := st.Val.(*ssa.Slice); ok && sl.X == ssa.Value(contents) && sl.High == nil && sl.Low != nil {
+				isN := func(v ssa.Value) bool {
+					ex, ok := v.(*ssa.Extract)
+					return ok && ex.Tuple == ssa.Value(usCall) && ex.Index == 0
+				}
+				isNID := func(v ssa.Value) bool {
+					ex, ok := v.(*ssa.Extract)
+					if !ok || ex.Index != 0 {
+						return false
 					}
-					isNID := func(v ssa.Value) bool {
-						phi, ok := v.(*ssa.Phi)
-						if !ok {
-							return false
+					call, ok := ex.Tuple.(*ssa.Call)
+					return ok && c.StaticCalleeOf(&call.Call) == c.Func("unpackUint16")
+				}
+				sawN, sawBoth, other := false, false, false
+				for _, alt := range altSums(sl.Low, 0) {
+					nN, nI, rest := 0, 0, 0
+					for _, t := range alt {
+						switch {
+						case isN(t):
+							nN++
+						case isNID(t):
+							nI++
+						default:
+							rest++
 						}
-						zero, id := false, false
-						for _, e := range phi.Edges {
-							if k, ok := constInt(e); ok && k == 0 {
-								zero = true
-							} else if ex, ok := e.(*ssa.Extract); ok && ex.Index == 0 {
-								if call, ok := ex.Tuple.(*ssa.Call); ok && c.StaticCalleeOf(&call.Call) == c.Func("unpackUint16") {
-									id = true
-								}
-							}
-						}
-						return zero && id
 					}
-					if (isN(add.X) && isNID(add.Y)) || (isN(add.Y) && isNID(add.X)) {
-						okPayload = true
+					switch {
+					case nN == 1 && nI == 0 && rest == 0:
+						sawN = true
+					case nN == 1 && nI == 1 && rest == 0:
+						sawBoth = true
+					default:
+						other = true
 					}
+				}
+				if sawN && sawBoth && !other {
+					okPayload = true
 				}
 			}
 		}
@@ -1283,4 +1328,182 @@ func (c *Ctx) ruleUnpackStringConsumes(rr *RuleRep) {
 			rr.Bad("unpackString/consumed", ret.Pos(), "unpackString returns %s as the number of bytes consumed, but the field it decoded ends at offset %s: for some inputs (e.g. multi-byte UTF-8) the fields that follow — packet identifier, payload — are read from the wrong offset", got.String(), hi.String())
 		}
 	}
+}
+
+// altSums: the ways an integer value can be a sum of opaque terms, over the alternatives of its phis: constants 0 vanish,
+// `a + b` concatenates, a phi yields the union of its operands' alternatives.
+func altSums(v ssa.Value, depth int) [][]ssa.Value {
+	if depth > 8 {
+		return [][]ssa.Value{{v}}
+	}
+	if k, ok := constInt(v); ok && k == 0 {
+		return [][]ssa.Value{{}}
+	}
+	switch x := v.(type) {
+	case *ssa.BinOp:
+		if x.Op == token.ADD {
+			var out [][]ssa.Value
+			for _, a := range altSums(x.X, depth+1) {
+				for _, b := range altSums(x.Y, depth+1) {
+					out = append(out, append(append([]ssa.Value{}, a...), b...))
+				}
+			}
+			return out
+		}
+	case *ssa.Phi:
+		var out [][]ssa.Value
+		for _, e := range x.Edges {
+			if e == v {
+				continue
+			}
+			out = append(out, altSums(e, depth+1)...)
+		}
+		return out
+	case *ssa.ChangeType:
+		return altSums(x.X, depth+1)
+	}
+	return [][]ssa.Value{{v}}
+}
+
+// remainingLengthLoopForm recognises the loop formulation of the MQTT variable-length encoding:
+//
+//	guard n > 0xFFFFFFF -> panic;  b := empty;  for ; n > 0x7F; n >>= 7 { b = append(b, byte(n)|0x80) };  return append(b, byte(n))
+//
+// Returns isLoop=false when the function has no loop over its parameter (then the unrolled analysis applies); otherwise the
+// reason why the loop is not that scheme ("" when it is).
+func (c *Ctx) remainingLengthLoopForm(f *ssa.Function) (string, bool) {
+	n := f.Params[0]
+	var N *ssa.Phi
+	eachInstr(f, func(in ssa.Instruction) {
+		phi, ok := in.(*ssa.Phi)
+		if !ok || N != nil {
+			return
+		}
+		fromParam, shifted := false, false
+		for _, e := range phi.Edges {
+			if e == ssa.Value(n) {
+				fromParam = true
+				continue
+			}
+			if b, ok := e.(*ssa.BinOp); ok && b.Op == token.SHR && b.X == ssa.Value(phi) {
+				if k, ok := constInt(b.Y); ok && k == 7 {
+					shifted = true
+					continue
+				}
+			}
+			return
+		}
+		if fromParam && shifted {
+			N = phi
+		}
+	})
+	if N == nil {
+		return "", false
+	}
+	// loop condition: N > 0x7F (or N >= 0x80) on the edge into the body
+	hdr := N.Block()
+	iff := blockIf(hdr)
+	if iff == nil {
+		return "the loop is not controlled by a test of the remaining value", true
+	}
+	bin, ok := iff.Cond.(*ssa.BinOp)
+	if !ok || bin.X != ssa.Value(N) {
+		return "the loop is not controlled by a test of the remaining value", true
+	}
+	k, isK := constInt(bin.Y)
+	if !isK || !((bin.Op == token.GTR && k == 0x7F) || (bin.Op == token.GEQ && k == 0x80)) {
+		return "the loop continues on a condition other than `n > 0x7F`", true
+	}
+	isByteOf := func(v ssa.Value, of ssa.Value) bool {
+		cv, ok := v.(*ssa.Convert)
+		if !ok || cv.X != of {
+			return false
+		}
+		b, ok := cv.Type().Underlying().(*types.Basic)
+		return ok && b.Kind() == types.Uint8
+	}
+	// the accumulated slice: phi(empty, append(B, byte(N)|0x80))
+	var B *ssa.Phi
+	for _, in := range hdr.Instrs {
+		phi, ok := in.(*ssa.Phi)
+		if !ok || phi == N {
+			continue
+		}
+		if _, isSlice := phi.Type().Underlying().(*types.Slice); isSlice {
+			B = phi
+		}
+	}
+	if B == nil {
+		return "no accumulated byte slice", true
+	}
+	okInit, okStep := false, false
+	for _, e := range B.Edges {
+		base, elems, ok := c.appendChain(e)
+		if ok && base == ssa.Value(B) && len(elems) == 1 && elems[0].Single != nil {
+			if or, isOr := elems[0].Single.(*ssa.BinOp); isOr && or.Op == token.OR {
+				kk, isK := constInt(or.Y)
+				if isK && kk == 0x80 && isByteOf(or.X, N) {
+					okStep = true
+					continue
+				}
+			}
+			return "a loop iteration does not append byte(n)|0x80", true
+		}
+		if c.isFreshEmptySlice(e) {
+			okInit = true
+			continue
+		}
+		if mk, isMk := e.(*ssa.MakeSlice); isMk {
+			if l, ok := constInt(mk.Len); ok && l == 0 {
+				okInit = true
+				continue
+			}
+		}
+		if sl, isSl := e.(*ssa.Slice); isSl {
+			if h, ok := constInt(sl.High); ok && h == 0 {
+				okInit = true
+				continue
+			}
+		}
+		return "the byte slice does not start empty", true
+	}
+	if !okInit || !okStep {
+		return "the byte slice is not built as empty + one byte per iteration", true
+	}
+	for _, ret := range returnsOf(f) {
+		base, elems, ok := c.appendChain(ret.Results[0])
+		if !ok || base != ssa.Value(B) || len(elems) != 1 || elems[0].Single == nil || !isByteOf(elems[0].Single, N) {
+			return "the result is not the accumulated bytes followed by byte(n) of the remaining value", true
+		}
+	}
+	// overflow guard on the parameter before the loop
+	guarded := false
+	for _, b := range f.Blocks {
+		g := blockIf(b)
+		if g == nil {
+			continue
+		}
+		gb, ok := g.Cond.(*ssa.BinOp)
+		if !ok || gb.X != ssa.Value(n) {
+			continue
+		}
+		gk, isK := constInt(gb.Y)
+		if !isK {
+			continue
+		}
+		edge := -1
+		switch {
+		case gb.Op == token.GTR && gk == 0xFFFFFFF, gb.Op == token.GEQ && gk == 0x10000000:
+			edge = 1
+		case gb.Op == token.LEQ && gk == 0xFFFFFFF, gb.Op == token.LSS && gk == 0x10000000:
+			edge = 0
+		}
+		if edge >= 0 && DominatedByEdge(f, hdr.Instrs[0], b, edge, PathQ{}) {
+			guarded = true
+		}
+	}
+	if !guarded {
+		return "lengths above 268435455 are not rejected before encoding (a fifth byte would be emitted)", true
+	}
+	return "", true
 }
